@@ -23,7 +23,7 @@ CLAIMED = {
  'C02': dict(
    technique="bounded-exhaustive token strings in nine syntactic contexts + proptest structure-aware mutation / truncation of rendered documents + random bytes + coverage-guided libFuzzer target with the same oracle (thorough tier); oracle: no panic (catch_unwind) / no abort (child process), error line range, check_buffer superset of load",
    text="Totality is attacked where the lexer and parser index into the buffer: every string up to length 4 (quick) / 6 (thorough) over a 16-symbol XML token alphabet in nine contexts, truncation of small documents at every byte offset, XML-header attribute shapes, mutated documents of all versions, random bytes / UTF-8, and nesting-depth probes run in a child process.",
-   note="A hang would show as the check not terminating (no separate watchdog); stack overflow at extreme nesting depth is a recorded open finding (KF-C02-4), a crash at <= 1000 levels would be a new violation.",
+   note="Termination: every load_buffer / check_buffer call is registered with a watchdog thread that reads the CPU time of the calling thread (/proc/self/task/<tid>/stat); 30 s of CPU time inside one call (normal: microseconds) is reported as no-termination with the input saved - CPU time, so machine load cannot trigger it. Stack overflow at extreme nesting depth is a recorded open finding (KF-C02-4), a crash at <= 1000 levels would be a new violation.",
    ref="DESIGN.md section 3 C02"),
  'C08': dict(
    technique="differential testing strict vs lenient load (R1-R3) over C02's generated inputs, plus proptest-generated valid documents with one injected defect from a 22-class catalogue that strict loading must reject (R4); R1-R3 also inside a coverage-guided libFuzzer target (thorough tier)",
@@ -33,7 +33,7 @@ CLAIMED = {
  'C20': dict(
    technique="proptest-generated texts in the AUTOSAR lexical forms paired with their exact value (u128 / big-integer arithmetic), checked for 12 integer widths and for correctly rounded float conversion by an exact midpoint test; value round trip through element slots (set, serialize, load)",
    text="Every integer width is compared with exact arithmetic at and around its bounds in every radix and on 40-digit random literals; float results are judged against the two neighbouring midpoints in big-integer arithmetic (no float parsing in the oracle); enumeration items of every enumeration per version, escapable strings, boundary u64 and all f64 bit classes are formatted and parsed back through real element slots.",
-   note="Texts whose exact value exceeds the largest finite double are not judged; attribute slots are exercised through C01/C07 rather than here.",
+   note="Texts whose exact value exceeds the largest finite double are not judged. Slots: element content of all four kinds, and attribute slots for every (enumeration, version) of every attribute (text -> value through set_attribute_string).",
    ref="DESIGN.md section 3 C20"),
  'C03': dict(
    technique="stateful property-based testing: proptest-generated histories of public API calls (symbolic handles incl. stale ones) with a tree invariant recomputed from content() after every step",
@@ -93,7 +93,7 @@ CLAIMED = {
  'C09': dict(
    technique="property-based testing with constructed truth: a generated master document is split over 2-4 files at splittable points (file sets per element), optionally with differently ordered named siblings, and loaded in all orders; oracle = master tree with multiset children and assigned file sets, per-file content, order independence",
    text="Every load order (all k! for k <= 3) must give a model that equals the master (every element once, the assigned file set on every element), every file written from the merged model must equal the file loaded on its own, and all orders must agree; a rejected merge of consistent views is a violation.",
-   note="Anonymous (non-identifiable) siblings of one kind are kept together and never re-ordered (no merge could match them); siblings are re-ordered per file only below splittable parents.",
+   note="Anonymous (non-identifiable) siblings of one kind are kept together and never re-ordered unless a DEFINITION-REF that is unique among them identifies them (BSW values: those are distributed individually); siblings are re-ordered per file only below splittable parents. Files of one case may have different versions (a split is made only where every involved version allows it). A conflict variant diverges two complete views below a non-splittable parent: same-kind named children must be rejected in both orders; different-kind divergences are a recorded finding (KF-C09-4).",
    ref="DESIGN.md section 3 C09"),
  'C15': dict(
    technique="schedule-controlled concurrency testing: the harness owns the schedule through the lock shim (hook); systematic exploration of all schedules up to a preemption bound for curated operation pairs plus proptest-generated operations and schedules; oracle: no state in which every unfinished thread waits on a non-timed lock request, and no non-timed wait for the lock of an ancestor element while holding a descendant's lock",
